@@ -134,6 +134,33 @@ class MatchAllSpec(MatchSpec):
             return [(st, ('val', B(MATCHES(pos[0], pos[1]))))]
         ex.contracts['TapeCassette._match_metadata_value'] = c_match
 
+    def consume(self, ex, st, name, e):
+        # all(<element> for key, value in filter.items()): the element is executed once on a GENERIC entry of the filter; when it is pure and
+        # total the result is "for all entries: element", any order of enumeration (short-circuiting does not matter for a pure element)
+        comp = e.args[0]; g = comp.generators[0] if len(comp.generators) == 1 else None
+        if name not in ('all', 'any') or g is None or g.ifs or not (isinstance(g.target, ast.Tuple) and len(g.target.elts) == 2 and all(isinstance(t, ast.Name) for t in g.target.elts)):
+            return None
+        outs = []
+        for s1, r in ex.ev(g.iter, st):
+            if r[0] == 'exc':
+                outs.append((s1, r)); continue
+            if not ex.is_kind(s1, r[1], 'dictitems'):
+                return None
+            d = s1.rd(r[1], 'of'); dom, mp = s1.dcontents(d)
+            kg = fresh('generic_filter_key'); s1.assume(dom[kg])
+            h0 = dict(s1.heap); g0 = (s1.g['dmap'], s1.g['ddom'], s1.g['seq'])
+            s1.push({g.target.elts[0].id: kg, g.target.elts[1].id: mp[kg]}, s1.stack[-1], s1.ctx)
+            rs = ex.ev(comp.elt, s1)
+            if len(rs) != 1 or rs[0][1][0] != 'val':
+                raise Unsupported('all(...): the element is not total on a generic filter entry')
+            s2, rv = rs[0]; s2.pop()
+            if any(s2.heap.get(f) is not h0[f] for f in h0) or (s2.g['dmap'], s2.g['ddom'], s2.g['seq']) != g0:
+                raise Unsupported('all(...): the element has effects')
+            kb = z3.Const('k!all', Val)
+            t = z3.substitute(ex.truth(s2, rv[1]), (kg, kb))
+            outs.append((s2, ('val', B(z3.ForAll([kb], z3.Implies(dom[kb], t)) if name == 'all' else z3.Exists([kb], z3.And(dom[kb], t))))))
+        return outs
+
     def loop(self, ex, st, n, itv):
         # for k, v in filter_by_metadata.items(): iterate the keys of the filter (each exactly the dict's entry), in any order
         if not ex.is_kind(st, itv, 'dictitems'):
@@ -158,6 +185,7 @@ def match_all(props=None):
     st = St()
     flt = st.sym_obj('filter_by_metadata', 'dict'); meta = st.sym_obj('recording_metadata', 'dict')
     st.push({'filter_by_metadata': flt, 'recording_metadata': meta}, None, (m.name, cls, node))
+    (fd0, fm0), (md0, mm0) = st.dcontents(flt), st.dcontents(meta)
     paths = ex.block(node.body, st); obl = []; U = 'match_against_recorded_metadata'
     k = z3.Const('k!c', Val)
     for s, oc in paths:
@@ -165,13 +193,10 @@ def match_all(props=None):
         obl.append(Obl('C14/%s/total/never_raises' % U, 'C14', s, z3.BoolVal(oc[0] == 'return'), oc))
         if oc[0] != 'return':
             continue
-        d, mt, get = s.g['loopinfo']
-        allm = z3.ForAll([k], z3.Implies(s.dhas(d, k), MATCHES(s.dget(d, k), get(s, k))))
-        if s.g.get('loop_exhausted'):
-            obl.append(Obl('C14/%s/true_iff_every_filter_entry_matches' % U, 'C14', s, z3.And(oc[1] == B(True), allm), oc))
-        else:
-            done, x = s.g['in_iteration']
-            obl.append(Obl('C14/%s/false_only_with_a_non_matching_entry' % U, 'C14', s,
-                           z3.And(oc[1] == B(False), s.dhas(d, x), z3.Not(MATCHES(s.dget(d, x), get(s, x)))), oc))
+        # stated over the entry contents of the two dicts, whatever construct the code uses to enumerate the filter (loop, all(...), ...)
+        allm = z3.ForAll([k], z3.Implies(fd0[k], MATCHES(fm0[k], z3.If(md0[k], mm0[k], NONE))))
+        nm = 'true_iff_every_filter_entry_matches' if s.g.get('loop_exhausted') or 'in_iteration' not in s.g else 'false_only_with_a_non_matching_entry'
+        obl.append(Obl('C14/%s/%s' % (U, nm), 'C14', s, z3.And(Val.is_b(oc[1]), Val.bv(oc[1]) == allm), oc))
+        obl.append(Obl('C14/%s/modifies_neither_dict' % U, 'C14', s, z3.And(s.dcontents(flt)[0] == fd0, s.dcontents(flt)[1] == fm0, s.dcontents(meta)[0] == md0, s.dcontents(meta)[1] == mm0), oc))
     obl += [Obl('C14/%s/%s' % (U, a), 'C14', s_, c, oc_) for a, s_, c, oc_ in ex.obligations]
     return [info], obl, {'paths': len(paths), 'forks': ex.forks}
